@@ -71,17 +71,38 @@ def run(chk):
                   "no mutable pointer to a const object exists inside a Boxed_Value")
     ctors = [f for f in prog.fns if f.get("cls") == DATA and f["kind"] == "ctor" and not f.get("implicit") and not f.get("defaulted")]
     r1.anchor(len(ctors) >= 1, "Boxed_Value::Data constructor")
+    data_ptr_helpers = {}
+
+    def null_when_const(e):
+        e = strip_casts(e)
+        if e.get("k") != "cond":
+            return False
+        cnd, a = strip_casts(e["c"]), strip_casts(e["a"])
+        return cnd.get("k") == "call" and cnd.get("name") == "is_const" and a.get("k") == "lit" and a.get("lt") == "nullptr"
     for c in ctors:
         ini = [i for i in c.get("inits", []) if i.get("field") == "m_data_ptr"]
         ok = False
         why = "m_data_ptr is not initialised as `ti.is_const() ? nullptr : ptr`"
         if ini:
             e = strip_casts(ini[0]["init"])
-            if e.get("k") == "cond":
-                cnd = strip_casts(e["c"])
-                a = strip_casts(e["a"])
-                if cnd.get("k") == "call" and cnd.get("name") == "is_const" and a.get("k") == "lit" and a.get("lt") == "nullptr":
-                    ok = True
+            if null_when_const(e):
+                ok = True
+            elif e.get("k") == "call" and e.get("fn") is not None:
+                # the choice made in a helper of Data: every return of it is nullptr, the conditional itself, or reached only with `is_const()` false
+                g = prog.fn_by_id(c, e["fn"])
+                if g is not None and g.get("cls") == DATA and g.get("body"):
+                    gflow = FnFlow(g)
+                    grets = [n for n in walk(g["body"]) if n.get("k") == "return" and n.get("e") is not None]
+
+                    def ret_ok(rt):
+                        x = strip_casts(rt["e"])
+                        if (x.get("k") == "lit" and x.get("lt") == "nullptr") or null_when_const(x):
+                            return True
+                        return any((not t) and strip_casts(a).get("k") == "call" and strip_casts(a).get("name") == "is_const" for a, t in atomic_facts(gflow, rt))
+                    if grets and all(ret_ok(rt) for rt in grets):
+                        ok = True
+                        data_ptr_helpers[strip_targs(g["q"])] = g
+                        chk.touched([g])
         r1.ob("Boxed_Value::Data::Data/m_data_ptr null when the type is const", ok, c.where, c["q"], why)
     chk.touched(ctors)
     gp = [f for f in prog.fns if f.get("cls") == BV and f["name"] == "get_ptr"]
@@ -157,6 +178,13 @@ def run(chk):
                     q = "chaiscript::detail::Cast_Helper_Inner<T>::cast (a data cast, not the Boxed_Value& handle cast)"
                 if q not in seen:
                     seen[q] = (f, n, removed)
+    # a helper of Data that R7.1 found to feed m_data_ptr and to return non-null only with is_const() false stands where the constructor stood,
+    # provided nothing but the Data constructor calls it
+    for hq, g in data_ptr_helpers.items():
+        callers = {strip_targs(f["q"]) for f in prog.fns if f["tk"] != "pattern" for n in walk_fn(f)
+                   if n.get("k") == "call" and n.get("fn") is not None and strip_targs((prog.decl(f, n["fn"]) or {}).get("q") or "") == hq}
+        if callers <= {DATA + "::Data"}:
+            ALLOW2[hq] = "helper of the Data constructor: returns the pointer only with is_const() false (R7.1), called from nowhere else"
     for q, (f, n, removed) in sorted(seen.items()):
         r2.ob("%s removes const" % q, q in ALLOW2, "%s:%d" % (f["file"], n["l"]), f["q"], "%s: not on the allow-list" % removed)
         chk.touched([f])
@@ -166,23 +194,37 @@ def run(chk):
     r3 = chk.rule("R7.3", "every consumer of Boxed_Value::get_ptr() passes the pointer to the const-checking verifier or dereferences it only under a null check",
                   "arithmetic compound assignment / ++ / -- and reference casts cannot write into a const object")
     agg = {}
-    for f in prog.fns:
-        if f["tk"] == "pattern":
-            continue
-        flow = None
-        for n in walk_fn(f):
-            if not is_call_to(prog, f, n, "get_ptr", BV):
+    # a helper that only hands the pointer on (`return static_cast<T *>(bv.get_ptr());`) is no consumer: its callers are, and are judged the same way
+    forwarders = {}
+    for _round in range(3):
+        agg = {}
+        grew = False
+        for f in prog.fns:
+            if f["tk"] == "pattern":
                 continue
-            if flow is None:
-                flow = FnFlow(f)
-                locs = ref_inits(f)
-            ok, how = consumer_ok(prog, f, flow, locs, n)
-            q = strip_targs(f["q"])
-            e = agg.setdefault(q, {"ok": True, "where": "%s:%d" % (f["file"], n["l"]), "fn": f["q"], "n": 0, "how": how})
-            e["n"] += 1
-            if not ok and e["ok"]:
-                e.update(ok=False, where="%s:%d" % (f["file"], n["l"]), fn=f["q"], how=how)
-            chk.touched([f])
+            flow = None
+            for n in walk_fn(f):
+                if not is_call_to(prog, f, n, "get_ptr", BV):
+                    d = prog.decl(f, n.get("fn")) if n.get("k") == "call" and n.get("fn") is not None and forwarders else None
+                    if d is None or strip_targs(d.get("q") or "") not in forwarders:
+                        continue
+                if flow is None:
+                    flow = FnFlow(f)
+                    locs = ref_inits(f)
+                ok, how = consumer_ok(prog, f, flow, locs, n)
+                q = strip_targs(f["q"])
+                if ok is None:
+                    if q not in forwarders:
+                        forwarders[q] = f
+                        grew = True
+                    ok = True
+                e = agg.setdefault(q, {"ok": True, "where": "%s:%d" % (f["file"], n["l"]), "fn": f["q"], "n": 0, "how": how})
+                e["n"] += 1
+                if not ok and e["ok"]:
+                    e.update(ok=False, where="%s:%d" % (f["file"], n["l"]), fn=f["q"], how=how)
+                chk.touched([f])
+        if not grew:
+            break
     for q, e in sorted(agg.items()):
         r3.ob("%s consumes get_ptr() safely (%s)" % (q, e["how"] if e["ok"] else "UNSAFE"), e["ok"], e["where"], e["fn"],
               "the mutable pointer is used without the const-checking verifier or a null test: %s [%d sites]" % (e["how"], e["n"]))
@@ -489,6 +531,8 @@ def consumer_ok(prog, f, flow, locs, n):
         p = flow.parent(p)
     if p is None:
         return False, "unknown consumer"
+    if p.get("k") == "return" and f.get("kind") != "lambda":
+        return None, "returned unchanged to the caller, whose use of it is judged"
     if p.get("k") == "call" and p.get("name") in ("verify_type", "verify_type_no_throw"):
         return True, "passed to the const-checking verifier"
     # local pointer variable: all dereferences under `if (ptr)`; may be handed to callees that do the same
